@@ -41,6 +41,22 @@ pub const POSIX: &[&str] = &[
     "<-04>4<-03>,M10.1.0/0,M3.4.0/0",
     "AAA1BBB,M3.2.0/23:30,M11.1.0/0:15",
     "CCC-1DDD-3,M3.5.0/23,M10.5.0/25",
+    // Legal but unusual: daylight time with the *same* offset as standard
+    // time (only the abbreviation and the DST flag change), and daylight
+    // time *behind* standard time.
+    "AAA5BBB5,M3.2.0,M11.1.0",
+    "CCC5DDD6,M3.2.0,M11.1.0",
+    "<+03>-3<+03>-3,M3.5.0/1,M10.5.0/2",
+];
+
+/// Footers (and the matching type tables) of `Spec::TzifFooter` zones:
+/// (rule, standard offset, standard abbreviation, DST offset, DST
+/// abbreviation). In all of them 1 January is in standard time.
+pub const FOOTERS: &[(&str, i32, &str, i32, &str)] = &[
+    ("AAA5BBB5,M3.2.0,M11.1.0", -18_000, "AAA", -18_000, "BBB"),
+    ("EST5EDT,M3.2.0,M11.1.0", -18_000, "EST", -14_400, "EDT"),
+    ("CCC5DDD6,M3.2.0,M11.1.0", -18_000, "CCC", -21_600, "DDD"),
+    ("EET-2EEST,M3.5.0/0,M10.5.0/0", 7_200, "EET", 10_800, "EEST"),
 ];
 
 pub const N_STATIC: u8 = 3;
@@ -59,6 +75,10 @@ pub enum Spec {
     /// name with different data, and the same data under different names,
     /// are different zones.
     TzifNamed { name: u8, k: u32 },
+    /// A synthetic TZif file with one explicit transition (2000-01-01) and
+    /// a daylight saving rule in its footer (`FOOTERS[i]`): everything after
+    /// the table is computed from the rule.
+    TzifFooter(u8),
     /// `jiff::tz::get!` static (no heap).
     Static(u8),
     /// Heap TZif built from the *same name and bytes* as `Static(i)` (the
@@ -86,6 +106,7 @@ impl Spec {
                 | Spec::TzifReal(_)
                 | Spec::TzifSynth { .. }
                 | Spec::TzifNamed { .. }
+                | Spec::TzifFooter(_)
                 | Spec::TzifBundled(_)
                 | Spec::Db(_)
         )
@@ -98,6 +119,7 @@ impl Spec {
             Spec::TzifReal(_)
             | Spec::TzifSynth { .. }
             | Spec::TzifNamed { .. }
+            | Spec::TzifFooter(_)
             | Spec::TzifBundled(_)
             | Spec::Db(_) => 2,
             Spec::Static(_) => 3,
@@ -112,6 +134,7 @@ impl Spec {
             Spec::TzifReal(_) => "tzif_real",
             Spec::TzifSynth { .. } => "tzif_synth",
             Spec::TzifNamed { .. } => "tzif_named",
+            Spec::TzifFooter(_) => "tzif_footer_rule",
             Spec::TzifBundled(_) => "tzif_bundled",
             Spec::Db(_) => "from_database",
             Spec::Static(_) => "static",
@@ -130,6 +153,10 @@ pub enum Op {
     /// `dst = take(src)`; the old value of `dst` is dropped.
     Move { src: u8, dst: u8 },
     Eq { a: u8, b: u8 },
+    /// `dst.clone_from(&src)` for two values of the same type (`TimeZone`,
+    /// `Zoned` or `AmbiguousZoned`): `dst`'s old handle goes, a handle of
+    /// `src`'s zone comes.
+    CloneFrom { src: u8, dst: u8 },
     Query { a: u8, q: u8, t: u8 },
     /// `Timestamp[t].to_zoned(tz.clone())`
     IntoZoned { src: u8, dst: u8, t: u8 },
@@ -176,8 +203,10 @@ pub enum Op {
     MakeDerived { src: u8, dst: u8 },
     /// Uses a derived value: IANA name, offset, formatting with `%Q %Z %z`.
     UseDerived { slot: u8 },
-    /// `database.get(name)` (in one of four ASCII-case spellings): the
-    /// database hands out a clone of the handle in its cache.
+    /// `database.get(name)` (in one of four ASCII-case spellings, `case % 4`),
+    /// directly or through one of the parsing APIs that take a database
+    /// (`case / 4`): the database hands out a clone of the handle in its
+    /// cache.
     DbGet { dst: u8, name: u8, case: u8 },
     /// `database.reset()`: the cache drops its handles.
     DbReset,
@@ -201,6 +230,7 @@ impl Op {
             Op::Drop { .. } => "drop",
             Op::Move { .. } => "move",
             Op::Eq { .. } => "eq",
+            Op::CloneFrom { .. } => "clone_from",
             Op::Query { .. } => "query",
             Op::IntoZoned { .. } => "into_zoned",
             Op::ZonedAdd { .. } => "zoned_add",
@@ -241,7 +271,7 @@ pub struct Case {
 pub const N_INSTANTS: u8 = 14;
 pub const N_DATETIMES: u8 = 6;
 pub const N_QUERIES: u8 = 13;
-pub const N_ZONED_MAKE: u8 = 30;
+pub const N_ZONED_MAKE: u8 = 34;
 pub const N_ZONED_MUTATE: u8 = 9;
 pub const N_TZ_MAKE: u8 = 10;
 pub const N_AMB_OPS: u8 = 6;
@@ -257,7 +287,7 @@ fn spec(rng: &mut Rng, pool: &[Spec]) -> Spec {
 }
 
 pub fn fresh_spec(rng: &mut Rng) -> Spec {
-    match rng.weighted(&[6, 4, 18, 20, 18, 12, 12, 10, 8]) {
+    match rng.weighted(&[6, 4, 18, 20, 18, 12, 12, 10, 8, 8]) {
         0 => Spec::Utc,
         1 => Spec::Unknown,
         2 => {
@@ -272,7 +302,8 @@ pub fn fresh_spec(rng: &mut Rng) -> Spec {
         5 => Spec::TzifSynth { k: 1 + rng.below(50) as u32, tr: rng.chance(1, 2) },
         6 => Spec::Static(rng.below(N_STATIC as u64) as u8),
         7 => Spec::TzifNamed { name: rng.below(2) as u8, k: 1 + rng.below(3) as u32 },
-        _ => Spec::TzifBundled(rng.below(N_STATIC as u64) as u8),
+        8 => Spec::TzifBundled(rng.below(N_STATIC as u64) as u8),
+        _ => Spec::TzifFooter(rng.below(FOOTERS.len() as u64) as u8),
     }
 }
 
@@ -313,7 +344,7 @@ pub fn generate(rng: &mut Rng, thorough: bool) -> Case {
                 w_new, 16, 12, 6, 8, 14, w_zoned, w_zoned / 2, w_zoned / 2, w_zoned / 2,
                 w_zoned / 2, w_zoned / 2, w_send, w_send, w_shared, w_crash,
                 w_zoned, w_zoned, w_zoned / 3, w_zoned / 2, w_zoned / 2, w_zoned, w_zoned / 3,
-                w_zoned / 2, w_db, w_db / 5, w_db / 2, w_db / 5, w_zoned / 2, w_zoned / 2, 8,
+                w_zoned / 2, w_db, w_db / 5, w_db / 2, w_db / 5, w_zoned / 2, w_zoned / 2, 8, 8,
             ]) {
                 0 => {
                     let dst = slot(rng);
@@ -439,7 +470,8 @@ pub fn generate(rng: &mut Rng, thorough: bool) -> Case {
                     Op::DbGet {
                         dst,
                         name: rng.below(DB_NAMES.len() as u64) as u8,
-                        case: rng.below(4) as u8,
+                        // spelling (case % 4) and lookup path (case / 4)
+                        case: rng.below(24) as u8,
                     }
                 }
                 25 => Op::DbReset,
@@ -454,6 +486,7 @@ pub fn generate(rng: &mut Rng, thorough: bool) -> Case {
                     Op::MakeDerived { src, dst }
                 }
                 29 => Op::UseDerived { slot: full(rng, &occ) },
+                31 => Op::CloneFrom { src: full(rng, &occ), dst: full(rng, &occ) },
                 _ => {
                     let dst = slot(rng);
                     occ[dst as usize] = true;
